@@ -129,6 +129,8 @@ class Walker:
 
 def run(model, rep, tier):
     rep.explanation = __doc__.strip()
+    from ._common import caches_for
+    caches_for(model, rep, 'C04')
     rep.not_decided = 'kT co-scaling, displacement invariance and exact proportionality to the rates (numerical)'
     rep.rule('boltzmann-balanced', 'the argument of every np.exp has zero net weight in every reference class')
     rep.rule('class-of-argument', 'arrays passed on have the reference class the callee documents; partial in-place additions are class-zero')
